@@ -154,6 +154,11 @@ def sprite (verbose : Bool) (m : Profile) (s : Sprite) : Array String := Id.run 
   o := o.push s!"layers {nL}"
   let fsel := sel nF 10
   let lsel := sel nL 24
+  -- accessors that duplicate information: size(), PixelFormat::transparent_color_index(),
+  -- TilesetsById::is_empty(), Frame::id(), Layer::is_tilemap()
+  let istm := lsel.map (fun i => match (s.layers.getD i default).layerType with
+    | .tilemap _ => "1" | _ => "0")
+  o := o.push s!"accx size={s.width.toNat}x{s.height.toNat} tci={tci} tsempty={if s.tilesets.isEmpty then 1 else 0} frameids={String.intercalate "," (fsel.map toString)} istm={String.intercalate "," istm}"
   for f in fsel do
     o := o.push s!"frame {f} dur {(s.frameTimes.getD f 0).toNat}"
   for i in lsel do
